@@ -91,7 +91,8 @@ structure Fr (s s' : KState ℚ σ) : Prop where
 /-- what every transformer guarantees, condition code included -/
 structure Mono (rem : List Cb) (s s' : KState ℚ σ) : Prop where
   /-- an outcome, once set, stays — except that `_build_value` replaces the value of its own condition -/
-  out : ∀ e o, (s.ev e).out = some o → (s'.ev e).out = some o ∨ Cb.build e ∈ rem
+  out : ∀ e o, (s.ev e).out = some o → (s'.ev e).out = some o ∨
+    (Cb.build e ∈ rem ∧ ∃ v w, o = .ok v ∧ (s'.ev e).out = some (.ok w))
   /-- …and never disappears -/
   keep : ∀ e, (s.ev e).out ≠ none → (s'.ev e).out ≠ none
   /-- `_count` of a triggered event does not move any more -/
